@@ -80,7 +80,8 @@ def extra_public_attributes(sv):
             rec(v.section, path + ["W"])
         elif hasattr(v, "getSectionAttributes"):
             listed = set(v.getSectionAttributes())
-            have = set(k for k in vars(v) if not k.startswith("_"))
+            have = set(k for k in vars(v)
+                       if k not in ("_name", "_matcher", "_attributes"))
             if have != listed:
                 bad.append((path, sorted(have ^ listed)))
             for a in listed:
@@ -143,12 +144,35 @@ def write_text(path, text, pad=0):
         i = 0
         while n < pad:
             i += 1
-            line = "# padding line %d %s\n" % (i, "." * (i % 61)) \
+            # (two-byte characters at ever changing offsets: some of them
+            # straddle every power-of-two byte offset)
+            line = "# padding line %d %s\n" % (i, "\u00e9" * (i % 61)) \
                 if i % 7 else "\n"
             f.write(line)
             n += len(line)
         f.write(text)
     return path
+
+
+def pad_file(path, nbytes, xml=False):
+    """Put comment lines full of two-byte characters in front of what the
+    file holds, so that it extends beyond *nbytes* bytes and some character
+    straddles every block boundary a reader might use."""
+    with open(path, "rb") as f:
+        data = f.read()
+    if xml and data.lstrip().startswith(b"<?xml"):
+        return False
+    out = []
+    n = i = 0
+    while n < nbytes:
+        i += 1
+        body = "padding %d %s" % (i, "\u00e9" * (20 + i % 61))
+        line = ("<!-- %s -->\n" if xml else "# %s\n") % body
+        out.append(line)
+        n += len(line.encode("utf-8"))
+    with open(path, "wb") as f:
+        f.write("".join(out).encode("utf-8") + data)
+    return True
 
 
 def load_path(schema, path, overrides=()):
